@@ -3,6 +3,7 @@ package wmpt
 import (
 	"bytes"
 	"context"
+	"encoding/binary"
 	"errors"
 	"sync"
 
@@ -360,9 +361,48 @@ func (t *WeightedMerkleTrie) Root() []byte {
 		return emptyState
 	}
 	if t.root.Dirty() {
-		return t.root.CalcHash()
+		return hashOf(t.root)
 	}
 	return t.root.Hash()
+}
+
+// hashOf returns the hash CalcHash would compute for node without clearing any dirty
+// flag: the flags also tell Commit which nodes still have to be saved.
+func hashOf(node Node) []byte {
+	switch n := node.(type) {
+	case *routingNode:
+		if !n.dirty {
+			return n.hash
+		}
+		m := make([]byte, 0, branchNodeHashDataLength)
+		m = binary.BigEndian.AppendUint64(m, n.weight)
+		for _, child := range n.Children {
+			if child == nil {
+				child = emptyNode
+			}
+			m = append(m, hashOf(child)...)
+		}
+		return encryption.RawHash(m)
+	case *shortNode:
+		if !n.dirty {
+			return n.hash
+		}
+		m := make([]byte, 0, len(n.key)+32)
+		m = append(m, n.key...)
+		if n.value != nil {
+			m = append(m, hashOf(n.value)...)
+		}
+		return encryption.RawHash(m)
+	case *valueNode:
+		if !n.dirty {
+			return n.hash
+		}
+		m := make([]byte, 0, hashWithWeightLength)
+		m = binary.BigEndian.AppendUint64(m, n.weight)
+		m = append(m, n.value...)
+		return encryption.RawHash(m)
+	}
+	return node.CalcHash()
 }
 
 func (t *WeightedMerkleTrie) Weight() uint64 {
